@@ -1539,7 +1539,7 @@ theorem ginv_th_publish {s s' : St} {t : Nat} {th : Thread} {d : Ref} {held : Bo
   good_frame hg
 
 theorem ginv_th_setDefs {s s' : St} {t : Nat} {th : Thread} {d : Ref} {a : ARef} {held : Bool} (hi : Inv s) (hg : GInv s)
-    (hq : Quiet s) (ht : s.ths[t]? = some th) (hpc : th.pc = .setDefs d a held) (hs : stepTh s t th = some s') : GInv s' := by
+    (_hq : Quiet s) (ht : s.ths[t]? = some th) (hpc : th.pc = .setDefs d a held) (hs : stepTh s t th = some s') : GInv s' := by
   obtain ⟨x, hx, hp, hlo⟩ := hi.thDoc t th d ht (by simp [hpc, Pc.holds])
   obtain ⟨x1, y, hx1, hxa, hy, hyd, hyb⟩ := hg.madeOk t th d a ht (by simp [hpc, Pc.made])
   rw [hx] at hx1; cases hx1
